@@ -469,6 +469,21 @@ func workerCensus() int {
 	return strings.Count(string(buf[:n]), "decorator.(*decoratorController).worker(")
 }
 
+// waitCensus waits (liveness, generous wall-clock bound, never a safety oracle) until the number of live worker
+// goroutines equals want.
+func waitCensus(want int) bool {
+	deadline := time.Now().Add(60 * time.Second)
+	for time.Now().Before(deadline) {
+		if workerCensus() == want {
+			return true
+		}
+		time.Sleep(200 * time.Microsecond)
+	}
+	return workerCensus() == want
+}
+
+var c20LivenessFailures int
+
 func TestVerifC20Workers(t *testing.T) {
 	r := mc.NewReport("C20", "workers")
 	defer r.Write()
@@ -476,6 +491,12 @@ func TestVerifC20Workers(t *testing.T) {
 	idx := 0
 	var rec func(hist []string)
 	rec = func(hist []string) {
+		if c20LivenessFailures >= 2 {
+			if len(hist) == 1 {
+				r.Capped("stopped after 2 failed liveness waits (each waits 60 s); the failures are reported as violations")
+			}
+			return
+		}
 		if len(hist) > 0 {
 			idx++
 			if mc.Mine(idx) {
@@ -497,23 +518,15 @@ func TestVerifC20Workers(t *testing.T) {
 					if got := workerCensus(); got > want {
 						r.Violate("C20:workers:still-running-after-stop", fmt.Sprintf("after %v: %d worker goroutines alive, at most %d may be", hist[:i+1], got, want), kit.M{"events": hist[:i+1]})
 					}
-					ok := false
-					for w := 0; w < 600000; w++ {
-						if workerCensus() == want {
-							ok = true
-							break
-						}
-						time.Sleep(100 * time.Microsecond)
-					}
+					ok := waitCensus(want)
 					if !ok {
+						c20LivenessFailures++
 						r.Violate("C20:workers:census", fmt.Sprintf("after %v: %d worker goroutines, want %d", hist[:i+1], workerCensus(), want), kit.M{"events": hist[:i+1]})
 					}
 					r.Outcome(fmt.Sprintf("workers=%d", want))
 				}
 				x.teardown()
-				for w := 0; w < 600000 && workerCensus() != 0; w++ {
-					time.Sleep(100 * time.Microsecond)
-				}
+				waitCensus(0)
 				if idx%7 == 0 {
 					r.Sample(kit.M{"events": hist})
 				}
@@ -608,8 +621,12 @@ func c20InFlight(r *mc.Report, hist []string, specs []string) {
 		x.hist = append(x.hist, ev)
 		x.applyRaw(ev)
 	}
-	for w := 0; w < 600000 && workerCensus() != 2; w++ {
-		time.Sleep(100 * time.Microsecond)
+	if !waitCensus(2) {
+		c20LivenessFailures++
+		r.Capped(fmt.Sprintf("in-flight %v: the instance never reached 2 workers (reported by the census clause)", hist))
+		x.teardown()
+		waitCensus(0)
+		return
 	}
 	blocking.Store(true)
 	x.Sim.Edit(kit.Thing, "n1", "p", func(o map[string]interface{}) { kit.Ann(o, "touch", "in-flight") })
@@ -629,6 +646,7 @@ func c20InFlight(r *mc.Report, hist []string, specs []string) {
 		x.applyRaw(hist[len(hist)-1])
 	}()
 	verdict := ""
+	limit := time.Now().Add(5 * time.Minute)
 	for verdict == "" {
 		select {
 		case <-done:
@@ -636,10 +654,16 @@ func c20InFlight(r *mc.Report, hist []string, specs []string) {
 		default:
 			if stopBlockedOnWorkers() {
 				verdict = "waiting"
+			} else if time.Now().After(limit) {
+				verdict = "stuck"
 			} else {
 				time.Sleep(100 * time.Microsecond)
 			}
 		}
+	}
+	if verdict == "stuck" {
+		c20LivenessFailures++
+		r.Capped(fmt.Sprintf("in-flight %v: the reconciler neither returned nor reached Stop within 5 minutes (harness liveness wait)", hist))
 	}
 	if verdict == "returned" {
 		r.Violate("C20:workers:stop-returned-with-sync-in-flight", fmt.Sprintf("%v: the reconciler finished handling the last event while a worker of the obsolete instance was still inside its sync hook; the rest of that sync runs on behalf of a stopped instance", hist), kit.M{"events": hist, "in_flight": true})
@@ -670,17 +694,13 @@ func c20InFlight(r *mc.Report, hist []string, specs []string) {
 	}
 	x.Sim.Edit(kit.Thing, "n1", "p", func(o map[string]interface{}) { kit.Ann(o, "touch", "after") })
 	x.DeliverAll()
-	for w := 0; w < 600000 && workerCensus() != want; w++ {
-		time.Sleep(100 * time.Microsecond)
-	}
+	waitCensus(want)
 	if n := oldCalls(); n != callsAtReturn {
 		r.Violate("C20:workers:hook-call-after-stop", fmt.Sprintf("in-flight %v: %d hook calls on the stopped instance's URL after the reconciler returned", hist, n-callsAtReturn), kit.M{"events": hist, "in_flight": true})
 	}
 	r.Outcome("in-flight:" + verdict)
 	x.teardown()
-	for w := 0; w < 600000 && workerCensus() != 0; w++ {
-		time.Sleep(100 * time.Microsecond)
-	}
+	waitCensus(0)
 }
 
 // applyRaw performs the event and the reconcile without the behaviour checks (real workers own the queues).
